@@ -64,6 +64,7 @@ type TopicRecords map[string][][]byte
 func ExplodeXML(raw []byte, cfg ExplodeConfig) (Result, error) {
 	decoder := xml.NewDecoder(bytes.NewReader(raw))
 	decoder.Strict = false
+	decoder.CharsetReader = charsetReader
 
 	segmentStack := make([]segmentFrame, 0, 16)
 	result := Result{}
